@@ -294,7 +294,7 @@ func runC17(c *an.Ctx) {
 		},
 	})
 	decide(c, "C17-R3", fw+"(*Handler).healthcheck", an.DecideCfg{
-		Dom: an.Domain{"rnd": an.Bools, "len(p0.upstreams)": an.Ints(0, 1, 2), "s0": an.Strs("backoff", "down", "up"), "s1": an.Strs("backoff", "down", "up")},
+		Dom:    an.Domain{"rnd": an.Bools, "len(p0.upstreams)": an.Ints(0, 1, 2), "s0": an.Strs("backoff", "down", "up"), "s1": an.Strs("backoff", "down", "up")},
 		Inline: func(f *ssa.Function) bool { return an.FnKey(f) == fw+"(*Handler).healthcheck$1" },
 		OnCall: func(it *an.Interp, name string, args []an.AV) (an.AV, bool) {
 			switch {
